@@ -393,6 +393,25 @@ func (e *Engine) rangeText(fn *ssa.Function, lp *Loop) string {
 	if rs, ok := loops[lp.Ordinal-1].(*ast.RangeStmt); ok {
 		return types.ExprString(rs.X)
 	}
+	// `for i := 0; i < len(X); i++` walks X like `for i := range X`: the same loop key
+	// (an invariant keyed `range(X)` survives a conversion between the two spellings)
+	if fs, ok := loops[lp.Ordinal-1].(*ast.ForStmt); ok && fs.Init != nil && fs.Cond != nil && fs.Post != nil {
+		as, ok1 := fs.Init.(*ast.AssignStmt)
+		be, ok2 := fs.Cond.(*ast.BinaryExpr)
+		inc, ok3 := fs.Post.(*ast.IncDecStmt)
+		if ok1 && ok2 && ok3 && len(as.Lhs) == 1 && len(as.Rhs) == 1 && be.Op == token.LSS && inc.Tok == token.INC {
+			iv, okI := as.Lhs[0].(*ast.Ident)
+			zero, okZ := as.Rhs[0].(*ast.BasicLit)
+			cv, okC := be.X.(*ast.Ident)
+			call, okL := be.Y.(*ast.CallExpr)
+			pv, okP := inc.X.(*ast.Ident)
+			if okI && okZ && okC && okL && okP && zero.Value == "0" && cv.Name == iv.Name && pv.Name == iv.Name && iv.Name == "i" {
+				if fn, isId := call.Fun.(*ast.Ident); isId && fn.Name == "len" && len(call.Args) == 1 {
+					return types.ExprString(call.Args[0])
+				}
+			}
+		}
+	}
 	return ""
 }
 
@@ -550,7 +569,11 @@ func (e *Engine) collectMods(fn *ssa.Function, set map[string]bool) {
 			return
 		}
 		// unknown callee: everything reachable from non-fresh pointer-like arguments
-		for _, a := range c.Args {
+		for ai, a := range c.Args {
+			// natively modelled decoders only write through their target argument
+			if (key == "encoding/json.Unmarshal" || key == "errors.As") && ai == 0 {
+				continue
+			}
 			src := a
 			if mi, ok := a.(*ssa.MakeInterface); ok {
 				src = mi.X
